@@ -123,8 +123,12 @@ def run_shard(modname, tier, seed, shard, nshards, replay_case=None):
         for i in range(check.budget(tier)):
             yield 'random', check.gen(rng, tier, i)
 
+    pending = None          # a broken correspondence for which no failing input has been found yet
+    search_until = None
     try:
         for origin, case in cases():
+            if pending is not None and time.time() > search_until:
+                break
             try:
                 res = run_with_timeout(check.run_case, check.case_timeout, case, drv)
             except CaseTimeout:
@@ -182,6 +186,8 @@ def run_shard(modname, tier, seed, shard, nshards, replay_case=None):
                         break
             # a listed finding suppresses only the monitor line: the model reproduces the recorded behaviour exactly, so the
             # implementation is still compared with it on this case (a different misbehaviour on the same inputs is not hidden)
+            if res.real != res.model and pending is not None:
+                continue
             if res.real != res.model:
                 # broken correspondence: search for an input on which the property itself fails
                 found = None
@@ -206,16 +212,23 @@ def run_shard(modname, tier, seed, shard, nshards, replay_case=None):
                 else:
                     small = _shrink(check, case, drv, lambda q: q.real != q.model and not q.monitor)
                     rs = check.run_case(small, drv)
-                    outcome = {'kind': 'broken-correspondence', 'case': small, 'shrunk_from': case,
+                    # nothing in the neighbourhood: keep the broken correspondence and go on through the remaining cases of this
+                    # shard (bounded in time) looking for an input on which a monitor fails
+                    pending = {'kind': 'broken-correspondence', 'case': small, 'shrunk_from': case,
                                'observed': rs.real, 'model_output': rs.model, 'searched': tried,
                                'broken': f'correspondence {check.prop}: Lean model driver vs pyctr on the same case',
                                'origin': origin}
+                    search_until = time.time() + (45 if tier != 'thorough' else 300)
+                    continue
                 break
             stats['corr_ok'] += 1
     except Exception:
         outcome = {'kind': 'harness-error', 'trace': traceback.format_exc()}
     finally:
         drv.close()
+    if pending is not None and (outcome is None or outcome['kind'] == 'harness-error'):
+        pending['searched'] = f"{pending['searched']} neighbours + {stats['evaluations']} cases of the shard"
+        outcome = pending
     stats['distinct'] = list(stats.pop('sigs').keys())
     return stats, outcome
 
